@@ -183,7 +183,7 @@ Step(e) ==
        /\ LET r == e.r  l == e.lane IN
           /\ open' = [open EXCEPT ![r][l] = FALSE]
           /\ pend' = [pend EXCEPT ![r][l] = FALSE]
-          /\ win' = [win EXCEPT ![r][l] = 0]
+          /\ win' = win      \* a sync requested after the unlink request is answered after this frame
           /\ synced' = [synced EXCEPT ![r][l] = FALSE]
           /\ full' = [full EXCEPT ![r][l] = FALSE]
           /\ f5' = [f5 EXCEPT ![r][l] = {}]
